@@ -545,5 +545,16 @@ def runHandlerSafeSpec : Bool := true
     flag and the return of `Event.set()`: `fut.published`) finds what `task.end` chose. -/
 def futurePublishesLastSpec : List (String × List String × List String) :=
   [("set", ["__data", "__exception"], []), ("raise_exception", ["__data", "__exception"], [])]
+/-- `enqPut` / `stopPut`: every put into the task queue is a BLOCKING put (the step is enabled only while the queue is not
+    full) that gives up after the pool's `timeout` (the `timeout := true` branch, present when `cfg.timeoutNone = false`):
+    `(method, blocking, timed by self._timeout)`.  A non-blocking put in `stop()` would raise Full at once on a bounded
+    queue and leave idle workers without a stop marker. -/
+def queuePutsSpec : List (String × Bool × Bool) := [("enqueue", true, true), ("stop", true, true)]
+/-- A task is an opaque identity in this model: `task.begin` runs "the task that was enqueued", which stands for the call
+    `method(*args, **kwargs)` with the very objects `enqueue(method, *args, **kwargs)` was given.  That reading is exact
+    when `(enqueue has no named parameter besides `method`, it queues `(method, args, kwargs, future)` with both argument
+    containers untouched, the worker hands exactly these three to `future.execute`, `execute` calls
+    `method(*args, **kwargs)`)`. -/
+def taskArgsForwardedSpec : Bool × Bool × Bool × Bool := (true, true, true, true)
 
 end JRV.Pool
